@@ -62,6 +62,11 @@ CHECKS = {
     note='Trusted: z3, symx executor, transliterator. The global statement follows from the local identity by integration (fundamental theorem of calculus) with the flux vanishing at the centre for regular solutions; quadrature error and integrator accuracy are outside.',
     technique='symbolic execution of ODE right-hand sides and kernels + z3 nonlinear real arithmetic (pointwise identities)',
     design='2/C05'),
+ 'C02': dict(
+    text='Bounded SMT validity checking of the transliterated boundary/interface kernels: for arbitrary per-solution vectors z3 decides that the collapsed surface values meet exactly the requested condition of each solution type (zgesv replaced by its contract) without touching other slots, and that one interface step (vectors mapped upward, constants mapped downward, glue sliced from cf_radial_solver) keeps y1,y2,y5,y6 continuous where defined, y4=0 on the solid side and y7 through static liquids, for all 16 layer orderings; declared stack extents are enforced.',
+    note='Trusted: z3, transliterator, zgesv contract stub (A x = b, info=0). One inductive step from an arbitrary state stands for any layer stack; the integrator preserving solution-hood inside a layer is outside.',
+    technique='Cython source transliteration + symbolic execution (formal-indeterminate mode) + z3 identities; extent-checked stack arrays',
+    design='2/C02'),
 }
 NOT_YET = {}
 ALL = ['C%02d' % i for i in range(1, 21)]
